@@ -194,6 +194,14 @@ def programs(thorough):
         ('<T, U>', 'a: core::marker::PhantomData<T>, b: U', '', "U: TypeInfo + 'static", 'T'),
         ('<T: Clone>', 'a: T', 'u8: Clone', "T: TypeInfo + 'static", None),                            # predicate about another type
         ('<T>', 'a: Vec<T>', "Vec<T>: TypeInfo + 'static", "Vec<T>: TypeInfo + 'static, T: TypeInfo + 'static", None),   # bound only on a type mentioning T
+        # the type's own generics already give T what the emitted impl needs, so only the attribute validation can reject these
+        ("<T: TypeInfo + 'static>", 'a: Vec<T>', "Vec<T>: TypeInfo + 'static", "Vec<T>: TypeInfo + 'static, T: TypeInfo + 'static", None),
+        ("<T: TypeInfo + 'static>", 'a: Option<T>', "Option<T>: TypeInfo + 'static", "T: TypeInfo + 'static", None),
+        ("<T: TypeInfo + 'static>", 'a: T', '', "T: TypeInfo + 'static", None),
+        ("<T: TypeInfo + 'static>", 'a: (T, u8)', "(T, u8): TypeInfo + 'static", "T: TypeInfo + 'static", None),
+        ("<T: TypeInfo + 'static>", 'a: [T; 2]', "[T; 2]: TypeInfo + 'static", "[T; 2]: TypeInfo + 'static, T: Clone", None),
+        ("<T: TypeInfo + 'static, U: TypeInfo + 'static>", 'a: T, b: Vec<U>', "T: TypeInfo + 'static, Vec<U>: TypeInfo + 'static", "T: TypeInfo + 'static, U: TypeInfo + 'static", None),
+        ("<T: TypeInfo + 'static, U: TypeInfo + 'static>", 'a: Vec<T>, b: core::marker::PhantomData<U>', "Vec<T>: TypeInfo + 'static", "T: TypeInfo + 'static", 'U'),
     ]
     for i, (gen, body, bad_b, good_b, skip) in enumerate(cases):
         sk = (', skip_type_params(%s)' % skip) if skip else ''
